@@ -42,6 +42,24 @@ def has_quant(e):
     return r
 
 
+_qfp_cache = {}
+
+
+def qf_parts(h):
+    """quantifier-free consequences of a hypothesis with nested quantifiers (clauses of its skolem normal form)"""
+    i = h.get_id()
+    r = _qfp_cache.get(i)
+    if r is None:
+        from . import prep
+        if z3.is_quantifier(h):
+            parts = []
+        else:
+            parts = [x for x in prep.normalize_nested(h) if not has_quant(x)]
+        r = (parts, h)
+        _qfp_cache[i] = r
+    return r[0]
+
+
 def is_true(e):
     return z3.is_true(z3.simplify(e))
 
@@ -112,14 +130,17 @@ class Interp:
         if z3.is_false(c):
             return False
         key = str(hash(tuple(p.get_id() for p in st.pc))) + "|" + c.sexpr()
-        key = key + "|" + str(len(st.pc))
+        key = key + "|" + str(len(st.pc)) + "|" + str(len(st.axioms))
         if key in self.feas_cache:
             return self.feas_cache[key]
         s = z3.Solver()
         s.set("timeout", 1500)
-        for h in st.pc:
+        for h in st.pc + st.axioms:
             if not has_quant(h):     # dropping hypotheses only makes more paths feasible (sound)
                 s.add(h)
+            else:
+                for x in qf_parts(h):
+                    s.add(x)
         s.add(c)
         self.stats["feas"] += 1
         r = s.check()
@@ -248,7 +269,7 @@ class Interp:
     def as_int(self, st, v, what="int") -> z3.ArithRef:
         v = self.force(st, v) if not st.spec else v
         if isinstance(v, Z):
-            if v.t.kind == "int":
+            if v.t.kind in ("int", "char"):
                 return v.e
             if v.t.kind == "bool":
                 return z3.If(v.e, 1, 0)
